@@ -366,7 +366,7 @@ type c17CGen struct {
 func (g *c17CGen) pick(xs ...string) string { return xs[g.r.Intn(len(xs))] }
 
 func (g *c17CGen) scalarVal(t reflect.Type) string {
-	bad := g.r.Chance(0.08)
+	bad := g.r.Chance(0.03)
 	if bad {
 		g.stats.Inc("cfg.value.invalid")
 	}
@@ -600,7 +600,7 @@ func (g *c17CGen) config() string {
 	for _, sp := range g.s.specs {
 		p := 0.5
 		if sp.req {
-			p = 0.95
+			p = 0.97
 		}
 		if !g.r.Chance(p) {
 			if sp.req {
@@ -782,9 +782,9 @@ func TestVerifC17Config(t *testing.T) {
 	g := &c17CGen{r: r, s: schema, stats: stats}
 
 	// ---- config.New
-	n := VEnvInt("VERIF_C17_CONFIG_N", 6000)
+	n := VEnvInt("VERIF_C17_CONFIG_N", 4000)
 	if VThorough() {
-		n = VEnvInt("VERIF_C17_CONFIG_N", 60000)
+		n = VEnvInt("VERIF_C17_CONFIG_N", 50000)
 	}
 	n /= shards
 	emitC := func(in string) {
@@ -871,9 +871,9 @@ func TestVerifC17Config(t *testing.T) {
 	}
 
 	// ---- Merger over real directory trees
-	nm := VEnvInt("VERIF_C17_MERGE_N", 1600)
+	nm := VEnvInt("VERIF_C17_MERGE_N", 1000)
 	if VThorough() {
-		nm = VEnvInt("VERIF_C17_MERGE_N", 16000)
+		nm = VEnvInt("VERIF_C17_MERGE_N", 12000)
 	}
 	nm /= shards
 	base, err := os.MkdirTemp("", "c17m")
